@@ -38,7 +38,8 @@ def shards(tier, seed):
 
 
 def _frames(np):
-    return [('ellipsis', ...), ('slice', slice(0, 3)), ('step', slice(1, 6, 2)), ('list', [0, 2, 3]), ('single', [4]), ('int2', 2), ('int0', 0), ('range', range(1, 4)), ('ndarray', np.array([5, 1, 1]))]
+    return [('ellipsis', ...), ('slice', slice(0, 3)), ('step', slice(1, 6, 2)), ('list', [0, 2, 3]), ('single', [4]), ('int2', 2), ('int0', 0), ('range', range(1, 4)), ('ndarray', np.array([5, 1, 1])),
+            ('range-desc', range(2, -1, -1)), ('range-neg', range(-3, 0))]          # ranges are index lists: descending down to sample 0, counted from the end
 
 
 def _idx(frame, n):
